@@ -52,6 +52,9 @@ pub struct LogInner {
     pub rng_next: u32,
     /// Board lead time declared through `Timings` (ms).
     pub lead_ms: u32,
+    /// nb front-end only: the radio answers a TxRequest with `Txing` and reports completion
+    /// later through a PHY event (the SendingJoin / SendingData states), instead of `TxDone`.
+    pub tx_async: bool,
 }
 
 pub type Log = Rc<RefCell<LogInner>>;
@@ -150,6 +153,9 @@ impl<const PW: u8, const G: i8> nb_device::radio::PhyRxTx for NbRadio<PW, G> {
             Event::TxRequest(cfg, bytes) => {
                 self.log.borrow_mut().ev.push(Ev::Tx { pw: cfg.pw, freq: cfg.rf.frequency, sf: sf_num(cfg.rf.bb.sf), bw: bw_hz(cfg.rf.bb.bw), bytes: bytes.to_vec() });
                 radio_call(&self.log, "tx")?;
+                if self.log.borrow().tx_async {
+                    return Ok(Response::Txing);
+                }
                 let ms = self.log.borrow().tx_done_ms;
                 Ok(Response::TxDone(ms))
             }
@@ -480,7 +486,10 @@ impl Default for DevOpts {
 
 impl<const PW: u8, const G: i8> Dev<PW, G> {
     pub fn new(front: Front, reg: Reg, creds: Creds, opts: &DevOpts) -> Self {
-        let log: Log = Rc::new(RefCell::new(LogInner { tx_done_ms: 0, snr: 5, rng_next: opts.rng_start, lead_ms: LEAD_MS, ..Default::default() }));
+        // nb front-end: half of all devices (chosen by a credential bit, so that twin devices
+        // agree) sit on a radio that completes TX asynchronously (SendingJoin / SendingData).
+        let tx_async = front == Front::Nb && creds.dev_eui[1] & 1 == 1;
+        let log: Log = Rc::new(RefCell::new(LogInner { tx_done_ms: 0, snr: 5, rng_next: opts.rng_start, lead_ms: LEAD_MS, tx_async, ..Default::default() }));
         let rng = SRng { log: log.clone(), prng: opts.rng_seed.map(Prng::new) };
         let cfg = region_config(reg, opts.bias);
         let dev = match front {
@@ -801,10 +810,18 @@ fn nb_transact<const PW: u8, const G: i8>(d: &mut NbDev<PW, G>, jm: JoinMode, ac
                 }
             }
             Response::UplinkSending(_) | Response::JoinRequestSending => {
-                // asynchronous TX: report TxDone
-                resp = match d.handle_event(Event::RadioEvent(nb_device::radio::Event::Phy(NbPhyEvent::TxDone(0)))) {
+                // asynchronous TX: report TxDone (an application delivers the radio's completion
+                // interrupt again when handling it failed: injected faults are single-shot)
+                let ms = d.get_radio().log.borrow().tx_done_ms;
+                resp = match d.handle_event(Event::RadioEvent(nb_device::radio::Event::Phy(NbPhyEvent::TxDone(ms)))) {
                     Ok(r) => r,
-                    Err(e) => return Resp::Error(render_nb_err(e)),
+                    Err(e) => {
+                        notes.push(format!("err:{}", render_nb_err(e)));
+                        match d.handle_event(Event::RadioEvent(nb_device::radio::Event::Phy(NbPhyEvent::TxDone(ms)))) {
+                            Ok(r) => r,
+                            Err(e) => return Resp::Error(render_nb_err(e)),
+                        }
+                    }
                 };
             }
             Response::JoinSuccess => return Resp::JoinSuccess,
